@@ -57,7 +57,7 @@ def run(tier: str, seed: int) -> int:
     chk.assumptions = ["a partition whose recorded extent is NaN (only missing / empty geometries) may be kept or dropped by bounds= (it holds no row that "
                        "intersects anything); all other partitions must be kept exactly when their extent overlaps the box"]
     quick = tier == "quick"
-    r = run_tlc("MC_ParquetDS", cfg=dict(constants=dict(MaxParts=16), invariants=["NumericOrder", "Sensitive"]), timeout=600)
+    r = run_tlc("MC_ParquetDS", cfg=dict(constants=dict(MaxParts=16), invariants=["NumericOrder", "Sensitive"]), timeout=3000)
     chk.add_tlc(r)
     if r.violated:
         chk.violation("spec", "MC_ParquetDS: " + str(r.violated), "", ctx=dict(site="spec"))
